@@ -27,11 +27,13 @@ import (
 	"fmt"
 	"math/rand"
 	"os"
+	"reflect"
 	"sort"
 	"strings"
 	"sync"
 	"sync/atomic"
 	"time"
+	"unsafe"
 
 	"github.com/lni/dragonboat/v4/config"
 	"github.com/lni/dragonboat/v4/internal/logdb"
@@ -432,6 +434,7 @@ type nhHost struct {
 	nh    *NodeHost
 	alive bool
 	joined bool
+	ssDir string
 	sms   []*nhSM // state machine incarnations created on this host
 	inc   int     // incarnation counter of the host
 	smu   sync.Mutex
@@ -561,9 +564,37 @@ func (c *nhCluster) reap(h *nhHost) {
 	}
 	h.alive = false
 	h.mem.ResetToSyncedState()
+	nhFixNames(h.mem)
 	h.mem.SetIgnoreSyncs(false)
 	atomic.StoreInt64(&h.inj.at, 0)
 	atomic.StoreInt32(&h.inj.fired, 0)
+}
+
+// nhFixNames repairs an artefact of the strict MemFS of lni/vfs: Rename stores the new name in
+// the node itself, ResetToSyncedState restores the parent's entry under the old name but leaves
+// the new name in the node, so Stat(old).Name() answers the new name - which no real file
+// system does (snapshotter.processOrphans uses FileInfo.Name()). Every node is given the name
+// of the directory entry that leads to it.
+func nhFixNames(m *gvfs.MemFS) {
+	rv := reflect.ValueOf(m).Elem().FieldByName("root")
+	root := reflect.NewAt(rv.Type(), unsafe.Pointer(rv.UnsafeAddr())).Elem()
+	var fix func(node reflect.Value)
+	fix = func(node reflect.Value) {
+		n := node.Elem()
+		chf := n.FieldByName("children")
+		ch := reflect.NewAt(chf.Type(), unsafe.Pointer(chf.UnsafeAddr())).Elem()
+		for _, k := range ch.MapKeys() {
+			c := ch.MapIndex(k)
+			nf := c.Elem().FieldByName("name")
+			reflect.NewAt(nf.Type(), unsafe.Pointer(nf.UnsafeAddr())).Elem().SetString(k.String())
+			if c.Elem().FieldByName("isDir").Bool() {
+				fix(c)
+			}
+		}
+	}
+	if !root.IsNil() {
+		fix(root)
+	}
 }
 
 func (c *nhCluster) closeAll() {
